@@ -10,6 +10,8 @@ import CqlVerif.Drv.Events
 import CqlVerif.Drv.Ks
 import CqlVerif.Drv.Reconn
 import CqlVerif.Drv.Topo
+import CqlVerif.Drv.Lex
+import CqlVerif.Drv.Idem
 open CqlVerif.Drv
 
 def dispatch (stream op real : String) : Verdict :=
@@ -26,6 +28,8 @@ def dispatch (stream op real : String) : Verdict :=
   | "ks" => KsStream.handle op real
   | "reconn" => ReconnStream.handle op real
   | "topo" => TopoStream.handle op real
+  | "lex" => LexStream.handle op real
+  | "idem" => IdemStream.handle op real
   | _ => { kind := "diff", detail := s!"unknown stream {stream}" }
 
 partial def loop (h : IO.FS.Stream) (out : IO.FS.Stream) : IO Unit := do
